@@ -932,3 +932,56 @@ func (p *Prog) FuncsDeep(f *ssa.Function, depth int) []*ssa.Function {
 	walk(f, depth)
 	return out
 }
+
+// ThroughCell: when v is a load of a local cell (a variable captured by a
+// closure, hence an Alloc) that is stored exactly once, the stored value;
+// otherwise v. A field read hoisted into such a local is still that field.
+func ThroughCell(v ssa.Value) ssa.Value {
+	for d := 0; d < 4; d++ {
+		u, ok := v.(*ssa.UnOp)
+		if !ok || u.Op != token.MUL {
+			return v
+		}
+		var cell ssa.Value = u.X
+		if fv, isFV := cell.(*ssa.FreeVar); isFV {
+			// the closure's free variable: find the binding in the parent
+			par := fv.Parent().Parent()
+			if par == nil {
+				return v
+			}
+			idx := -1
+			for k, x := range fv.Parent().FreeVars {
+				if x == fv {
+					idx = k
+				}
+			}
+			found := false
+			EachInstr(par, func(i ssa.Instruction) {
+				if mc, isMC := i.(*ssa.MakeClosure); isMC && mc.Fn == ssa.Value(fv.Parent()) && idx >= 0 && idx < len(mc.Bindings) {
+					cell = mc.Bindings[idx]
+					found = true
+				}
+			})
+			if !found {
+				return v
+			}
+		}
+		al, ok := cell.(*ssa.Alloc)
+		if !ok || al.Referrers() == nil {
+			return v
+		}
+		var stored ssa.Value
+		n := 0
+		for _, ref := range *al.Referrers() {
+			if st, isSt := ref.(*ssa.Store); isSt && st.Addr == ssa.Value(al) {
+				stored = st.Val
+				n++
+			}
+		}
+		if n != 1 {
+			return v
+		}
+		v = stored
+	}
+	return v
+}
